@@ -1,10 +1,14 @@
-(* Model of mj_fwdActuation (engine_forward.c) for single-input single-output actuators without
-   delay with dyntype none/integrator/filter/filterexact/muscle, gaintype fixed/affine/muscle,
-   biastype none/affine/muscle and non-periodic transmission (wrapPeriod = 0), and of the muscle
-   functions of engine_util_misc.c; generic over Lib/Num.  Definitions only.  The transmission
-   (actuator_length, actuator_velocity, actuator_moment) is an input. *)
+(* Model of mj_fwdActuation (engine_forward.c) for actuators without delay: single-input
+   single-output actuators with dyntype none/integrator/filter/filterexact/muscle, gaintype
+   fixed/affine/muscle, biastype none/affine/muscle and non-periodic transmission (wrapPeriod = 0),
+   and stateless SO3 orientation servos (gaintype so3: 3 or 4 controls, 3 force outputs); and of the
+   muscle functions of engine_util_misc.c; generic over Lib/Num.  Definitions only.
+   Three index spaces are kept apart: actuator index (position in the actuator list: parameters,
+   forcerange), control index (ctrl, ctrlrange: nu entries, addressed through a_ctrladr) and output
+   index (actuator_length/velocity/force, moment rows: nout entries, addressed through a_outadr).
+   The transmission (actuator_length, actuator_velocity, actuator_moment) is an input. *)
 From Coq Require Import ZArith List Bool.
-From MJV Require Import Lib.Num.
+From MJV Require Import Lib.Num Model.Spatial.
 Import ListNotations.
 
 Section Act.
@@ -92,12 +96,11 @@ Definition muscleDynamics (ctrl act : T) (prm : T * T * T) : T :=
 (* ---- one actuator *)
 Record Actuator := mkActuator {
   a_dyntype : Z;              (* 0 none, 1 integrator, 2 filter, 3 filterexact, 4 muscle *)
-  a_gaintype : Z;             (* 0 fixed, 1 affine, 2 muscle *)
+  a_gaintype : Z;             (* 0 fixed, 1 affine, 2 muscle, 4 so3 *)
   a_biastype : Z;             (* 0 none, 1 affine, 2 muscle *)
   a_dynprm : T * T * T;
   a_gainprm : list T;
   a_biasprm : list T;
-  a_ctrllimited : bool; a_ctrlrange : T * T;
   a_forcelimited : bool; a_forcerange : T * T;
   a_actlimited : bool; a_actrange : T * T;
   a_actearly : bool;
@@ -105,20 +108,38 @@ Record Actuator := mkActuator {
   a_actnum : Z;               (* 0 or 1 *)
   a_lengthrange : T * T;
   a_acc0 : T;
-  a_tendon : Z                (* tendon id for tendon transmission, -1 otherwise *)
+  a_tendon : Z;               (* tendon id for tendon transmission, -1 otherwise *)
+  a_ctrladr : Z;              (* first control of the actuator in ctrl *)
+  a_ctrlspec : Z;             (* so3: 1 exponential-map target (3 controls), 2 quaternion target (4 controls) *)
+  a_outadr : Z;               (* first output of the actuator in actuator_length/velocity/force *)
+  a_outnum : Z                (* number of outputs: 1, or 3 for so3 *)
 }.
 
 (* mj_actuatorDisabled: group in 0..30 and its bit set in opt.disableactuator *)
 Definition actuatorDisabled (mask : Z) (group : Z) : bool :=
   if ((group <? 0) || (30 <? group))%Z then false else Z.testbit mask group.
 
-(* control seen by the actuator: clampVec unless mjDSBL_CLAMPCTRL *)
-Definition clamp_ctrl (noclamp : bool) (a : Actuator) (u : T) : T :=
-  if noclamp then u else if a_ctrllimited a then clip u (fst (a_ctrlrange a)) (snd (a_ctrlrange a)) else u.
+(* ---- arrays addressed by Z *)
+Definition rdz (l : list T) (i : Z) : T := if (i <? 0)%Z then nzero else nth (Z.to_nat i) l nzero.
+Fixpoint upd_nat (a : list T) (n : nat) (v : T) : list T :=
+  match a, n with
+  | nil, _ => nil
+  | _ :: r, O => v :: r
+  | x :: r, S k => x :: upd_nat r k v
+  end.
+Definition updz (a : list T) (i : Z) (v : T) : list T := if (i <? 0)%Z then a else upd_nat a (Z.to_nat i) v.
+Fixpoint write_block (f : list T) (adr : Z) (blk : list T) : list T :=
+  match blk with nil => f | x :: r => write_block (updz f adr x) (adr + 1)%Z r end.
+
+(* control index space: clampVec(ctrl, actuator_ctrlrange, actuator_ctrllimited, nu) unless mjDSBL_CLAMPCTRL;
+   lim = (ctrllimited, lo, hi) of ONE control *)
+Definition clamp_ctrl (noclamp : bool) (lim : bool * T * T) (u : T) : T :=
+  let '(limited, lo, hi) := lim in
+  if noclamp then u else if limited then clip u lo hi else u.
 
 (* the local ctrl vector: clamp, then zero everything if any entry is bad *)
-Definition ctrl_vector (noclamp : bool) (acts : list Actuator) (ctrl : list T) : list T :=
-  let c := map (fun au => clamp_ctrl noclamp (fst au) (snd au)) (combine acts ctrl) in
+Definition ctrl_vector (noclamp : bool) (lims : list (bool * T * T)) (ctrl : list T) : list T :=
+  let c := map (fun lu => clamp_ctrl noclamp (fst lu) (snd lu)) (combine lims ctrl) in
   if existsb isBad c then map (fun _ => nzero) c else c.
 
 (* act_dot of a stateful actuator *)
@@ -157,17 +178,39 @@ Definition raw_force (mask : Z) (a : Actuator) (h u act len vel : T) : T :=
   if actuatorDisabled mask (a_group a) then nzero
   else gain a len vel * act_input a h u act (act_dot a u act) + bias a len vel.
 
-(* per-actuator record of the pipeline: (actuator, control seen by it, (act, length, velocity)) *)
-Definition zipped (acts : list Actuator) (us : list T) (st : list (T * T * T)) : list (Actuator * T * (T * T * T)) :=
-  combine (combine acts us) st.
-Definition raw1 (mask : Z) (h : T) (x : Actuator * T * (T * T * T)) : T :=
-  let '(a, u, (act, len, vel)) := x in raw_force mask a h u act len vel.
-Definition raw_forces (mask : Z) (h : T) (acts : list Actuator) (us : list T) (st : list (T * T * T)) : list T :=
-  map (raw1 mask h) (zipped acts us st).
+(* ---- SO3 geodesic servo (dyntype none) *)
+Definition expmap2Quat (v : vec3 T) : quat T :=
+  let angle := norm3 v in
+  if angle <? MINVAL then quatId
+  else let '(v0, v1, v2) := v in axisAngle2Quat (v0 / angle, v1 / angle, v2 / angle) angle.
+Definition vec3_at (l : list T) (adr : Z) : vec3 T := (rdz l adr, rdz l (adr + 1)%Z, rdz l (adr + 2)%Z).
+Definition so3_target (a : Actuator) (ctrl : list T) : quat T :=
+  let c := a_ctrladr a in
+  if (a_ctrlspec a =? 2)%Z
+  then fst (normalize4 (rdz ctrl c, rdz ctrl (c + 1)%Z, rdz ctrl (c + 2)%Z, rdz ctrl (c + 3)%Z))
+  else expmap2Quat (vec3_at ctrl c).
+Definition so3_block (mask : Z) (a : Actuator) (ctrl len vel : list T) : list T :=
+  if actuatorDisabled mask (a_group a) then [nzero; nzero; nzero]
+  else
+    let '(e0, e1, e2) := subQuat (so3_target a ctrl) (expmap2Quat (vec3_at len (a_outadr a))) in
+    let kp := p (a_gainprm a) 0 in let b0 := p (a_biasprm a) 0 in let b2 := p (a_biasprm a) 2 in
+    let o := a_outadr a in
+    [kp * e0 + b0 + b2 * rdz vel o; kp * e1 + b0 + b2 * rdz vel (o + 1)%Z; kp * e2 + b0 + b2 * rdz vel (o + 2)%Z].
 
-(* ---- tendon total-force limit: tendons = list of (actfrclimited, lo, hi) *)
+(* ---- stage 1: output block of every actuator, written at its output address.
+        acts_act = (actuator, last activation variable or 0) in actuator order;
+        ctrl is the clamped control vector (control index), len / vel are indexed by output *)
+Definition is_so3 (a : Actuator) : bool := (a_gaintype a =? 4)%Z.
+Definition out_block (mask : Z) (h : T) (ctrl len vel : list T) (x : Actuator * T) : list T :=
+  let '(a, act) := x in
+  if is_so3 a then so3_block mask a ctrl len vel
+  else [raw_force mask a h (rdz ctrl (a_ctrladr a)) act (rdz len (a_outadr a)) (rdz vel (a_outadr a))].
+Definition stage_raw (mask : Z) (h : T) (nout : nat) (ctrl len vel : list T) (acts_act : list (Actuator * T)) : list T :=
+  fold_left (fun f x => write_block f (a_outadr (fst x)) (out_block mask h ctrl len vel x)) acts_act (repeat nzero nout).
+
+(* ---- stage 2: tendon total-force limit; tendons = list of (actfrclimited, lo, hi) by tendon id *)
 Definition tendon_total (acts : list Actuator) (f : list T) (t : Z) : T :=
-  fold_left (fun s af => if (a_tendon (fst af) =? t)%Z then s + snd af else s) (combine acts f) nzero.
+  fold_left (fun s a => if (a_tendon a =? t)%Z then s + rdz f (a_outadr a) else s) acts nzero.
 
 Definition tendon_scale (tendons : list (bool * T * T)) (acts : list Actuator) (f : list T) (a : Actuator) (fa : T) : T :=
   if (a_tendon a <? 0)%Z then fa
@@ -176,21 +219,34 @@ Definition tendon_scale (tendons : list (bool * T * T)) (acts : list Actuator) (
        if lim && negb (tot =? nzero)
        then (if tot <? lo then fa * (lo / tot) else if hi <? tot then fa * (hi / tot) else fa)
        else fa.
+(* totals are computed once from the stage-1 forces f0 *)
+Definition stage_tendon (tendons : list (bool * T * T)) (acts : list Actuator) (f0 : list T) : list T :=
+  fold_left (fun f a => if (a_tendon a <? 0)%Z then f
+                        else updz f (a_outadr a) (tendon_scale tendons acts f0 a (rdz f (a_outadr a)))) acts f0.
 
-(* forcerange clamp: actuators without forcelimited and actuators of a disabled group are skipped *)
-Definition clamp_force (mask : Z) (a : Actuator) (f : T) : T :=
-  if a_forcelimited a && negb (actuatorDisabled mask (a_group a))
-  then clip f (fst (a_forcerange a)) (snd (a_forcerange a)) else f.
+(* ---- stage 3: forcerange clamp.  The range is a parameter of the ACTUATOR (a_forcerange, actuator
+        index), the clamped entries are the actuator's OUTPUT block [a_outadr, a_outadr + a_outnum).
+        Actuators without forcelimited and actuators of a disabled group are skipped. *)
+Fixpoint clip_block (f : list T) (adr : Z) (n : nat) (lo hi : T) : list T :=
+  match n with O => f | S k => clip_block (updz f adr (clip (rdz f adr) lo hi)) (adr + 1)%Z k lo hi end.
+Definition clamp_block (mask : Z) (f : list T) (a : Actuator) : list T :=
+  if a_forcelimited a && negb (actuatorDisabled mask (a_group a)) then
+    if is_so3 a then
+      let o := a_outadr a in
+      let nrm := norm3 (vec3_at f o) in
+      if snd (a_forcerange a) <? nrm
+      then let s := snd (a_forcerange a) / nrm in
+           updz (updz (updz f o (rdz f o * s)) (o + 1)%Z (rdz f (o + 1)%Z * s)) (o + 2)%Z (rdz f (o + 2)%Z * s)
+      else f
+    else clip_block f (a_outadr a) (Z.to_nat (a_outnum a)) (fst (a_forcerange a)) (snd (a_forcerange a))
+  else f.
+Definition stage_clamp (mask : Z) (acts : list Actuator) (f : list T) : list T := fold_left (clamp_block mask) acts f.
 
-(* actuator_force of one actuator given the raw forces f0 of all *)
-Definition final1 (mask : Z) (h : T) (tendons : list (bool * T * T)) (acts : list Actuator) (f0 : list T)
-           (x : Actuator * T * (T * T * T)) : T :=
-  clamp_force mask (fst (fst x)) (tendon_scale tendons acts f0 (fst (fst x)) (raw1 mask h x)).
-
-Definition actuator_forces (mask : Z) (h : T) (tendons : list (bool * T * T)) (acts : list Actuator)
-           (us : list T) (st : list (T * T * T)) : list T :=
-  let f0 := raw_forces mask h acts us st in
-  map (final1 mask h tendons acts f0) (zipped acts us st).
+(* actuator_force (output index space) *)
+Definition actuator_forces (mask : Z) (h : T) (nout : nat) (tendons : list (bool * T * T))
+           (ctrl len vel : list T) (acts_act : list (Actuator * T)) : list T :=
+  let acts := map fst acts_act in
+  stage_clamp mask acts (stage_tendon tendons acts (stage_raw mask h nout ctrl len vel acts_act)).
 
 (* ---- transmission: qfrc = moment^T force, moment given as one row (length nv) per actuator *)
 Definition vadd (a b : list T) : list T := map (fun xy => fst xy + snd xy) (combine a b).
@@ -209,9 +265,21 @@ Definition dof_post (d : option T * bool * T * T) (q : T) : T :=
 Definition qfrc_actuator (nv : nat) (moment : list (list T)) (f : list T) (dofs : list (option T * bool * T * T)) : list T :=
   map (fun dq => dof_post (fst dq) (snd dq)) (combine dofs (mulMatTVec nv moment f)).
 
-(* act_dot of every stateful actuator (stateless: 0) *)
-Definition act_dots (acts : list Actuator) (us : list T) (st : list (T * T * T)) : list T :=
-  map (fun x => let '(a, u, (act, _, _)) := x in if (a_actnum a =? 0)%Z then nzero else act_dot a u act)
-      (combine (combine acts us) st).
+(* act_dot of every actuator with one activation variable (others: 0), in actuator order *)
+Definition act_dots (ctrl : list T) (acts_act : list (Actuator * T)) : list T :=
+  map (fun x : Actuator * T => let '(a, act) := x in
+         if (a_actnum a =? 1)%Z then act_dot a (rdz ctrl (a_ctrladr a)) act else nzero) acts_act.
+
+(* ---- mj_fwdActuation: (act_dot per actuator, actuator_force per output, qfrc_actuator per dof);
+        with mjDSBL_ACTUATION (or no actuator) everything is zero and the per-dof post-processing is skipped *)
+Definition fwd_actuation (actuation_off : bool) (mask : Z) (h : T) (nout nv : nat) (noclamp : bool)
+           (lims : list (bool * T * T)) (ctrl len vel : list T) (acts_act : list (Actuator * T))
+           (tendons : list (bool * T * T)) (moment : list (list T)) (dofs : list (option T * bool * T * T))
+  : list T * list T * list T :=
+  if actuation_off then (map (fun _ => nzero) acts_act, repeat nzero nout, repeat nzero nv)
+  else
+    let c := ctrl_vector noclamp lims ctrl in
+    let f := actuator_forces mask h nout tendons c len vel acts_act in
+    (act_dots c acts_act, f, qfrc_actuator nv moment f dofs).
 
 End Act.
